@@ -24,6 +24,7 @@ From Galaxy.Model Require Keys.
 From Galaxy.Proofs Require Import IpamP PluginInv PluginStickyP.
 From Galaxy.Proofs Require PluginPoolP.
 From Galaxy.Proofs Require Import PluginReplicasP.
+From Galaxy.Proofs Require Import PluginRoundsP.
 Local Open Scope N_scope.
 
 (** a pod (any policy, no requested ranges) whose key holds IPs is offered exactly the nodes from which the IP the
@@ -229,3 +230,61 @@ Example dp_filter_then_bind_nonvacuous :
   (bind_section true true w1 (L "ns1") (L "dp-abc-xyz") (L "u5") (L "node1") (o_first_is x) no_faults).2 = BOk [x].
 Proof. exact ex_dp_filter_bind_l. Qed.
 Print Assumptions dp_filter_then_bind_nonvacuous.
+
+(** ** a restart / a configuration reload keeps the configured allocations (Proofs/PluginRoundsP.v; twin of the monitor
+    sticky_reservation_survives_reload)
+
+    ANY world satisfying [WInv] ([WInv] contains "no undelivered administrator change": [i_pending = ∅], and the agreement
+    of memory and store), any configuration [conf] the decoder accepts ([decode_pools conf = Some ps]; [pools_ok ps]
+    follows, [decode_pools_ok]).  The step is the restart of the process resp. the reload with every deletion of a
+    de-configured object succeeding (the only reload [wf_op] admits).  Every entry of the allocation table whose address
+    the NEW pools configure ([configured (sort_pools ps) x]; ConfigurePool sorts the pools by gateway) is still in the
+    table afterwards, the step answers ROk.
+    Deviation from the statement asked for ("[i_alloc (w_ipam w') !! x = Some e]"): the entry of afterwards [e'] is the
+    STORE's object for [x]; it has the key, policy, node, uid and reserved label of [e] ([proj], Proofs/IpamP.v) - the
+    time stamp [e_time] is the store object's.  [WInv] relates memory and store only up to [proj], and the literal
+    statement is false of some worlds satisfying [WInv]: [restart_keeps_exact_entry_refuted] below.  Where the store
+    holds [e] itself ([i_store (w_ipam w) !! x = Some e]) the conclusion gives [e' = e]. *)
+Theorem restart_keeps_configured_allocations : ∀ w conf ps w' r x e,
+  WInv w → decode_pools conf = Some ps → pstep w (PRestart conf) = (w', r) →
+  i_alloc (w_ipam w) !! x = Some e → configured (sort_pools ps) x = true →
+  r = ROk ∧ ∃ e', i_alloc (w_ipam w') !! x = Some e' ∧ i_store (w_ipam w) !! x = Some e' ∧ proj e' = proj e.
+Proof. exact restart_keeps_configured_allocations_l. Qed.
+Print Assumptions restart_keeps_configured_allocations.
+
+Theorem reload_keeps_configured_allocations : ∀ w conf ps w' r x e,
+  WInv w → decode_pools conf = Some ps → pstep w (PIpam (OConfigure conf false [])) = (w', r) →
+  i_alloc (w_ipam w) !! x = Some e → configured (sort_pools ps) x = true →
+  r = ROk ∧ ∃ e', i_alloc (w_ipam w') !! x = Some e' ∧ i_store (w_ipam w) !! x = Some e' ∧ proj e' = proj e.
+Proof. exact reload_keeps_configured_allocations_l. Qed.
+Print Assumptions reload_keeps_configured_allocations.
+
+(** non-vacuity ([ex_sticky_world]: 10.100.0.3 reserved under the key of statefulset pod ns1/web-0): restarted, or
+    reloaded, with the configuration [ex_conf2] it runs with, the entry is there literally *)
+Example restart_keeps_configured_nonvacuous :
+  let w := ex_sticky_world in let x := ip4 10 100 0 3 in
+  ∃ ps e, WInv w ∧ decode_pools ex_conf2 = Some ps ∧ i_alloc (w_ipam w) !! x = Some e ∧ e_key e = pod_key wit_pod ∧
+          configured (sort_pools ps) x = true ∧
+          pstep w (PRestart ex_conf2) = ((pstep w (PRestart ex_conf2)).1, ROk) ∧
+          i_alloc (w_ipam (pstep w (PRestart ex_conf2)).1) !! x = Some e ∧
+          pstep w (PIpam (OConfigure ex_conf2 false [])) = ((pstep w (PIpam (OConfigure ex_conf2 false []))).1, ROk) ∧
+          i_alloc (w_ipam (pstep w (PIpam (OConfigure ex_conf2 false []))).1) !! x = Some e.
+Proof. exact ex_restart_keeps_l. Qed.
+Print Assumptions restart_keeps_configured_nonvacuous.
+
+(** the literal statement ("the entry is unchanged", time stamp included) is FALSE under [WInv] alone.  World
+    [resv_world]: on the tables loaded from [ex_conf2] an administrator reserves 10.100.0.3 (the labelled object is created
+    in the store at clock t) and the informer delivers the event (the reservation enters memory at clock t + 1); no change
+    is pending, memory and store agree in the sense of the invariant, [WInv] holds.  The restart and the reload rebuild
+    memory from the store: the entry [e'] of afterwards has the same key, policy, node, uid and label, and another time
+    stamp than the entry [e] of before.  (Such a world is not reachable by a [wf_hist] history - administrator operations
+    are not among its steps; whether memory and store are literally equal on reachable worlds is not stated by [WInv] and
+    was not investigated.) *)
+Theorem restart_keeps_exact_entry_refuted :
+  let w := resv_world in let x := ip4 10 100 0 3 in
+  ∃ ps e e', WInv w ∧ decode_pools ex_conf2 = Some ps ∧ i_alloc (w_ipam w) !! x = Some e ∧
+             configured (sort_pools ps) x = true ∧ e' ≠ e ∧ proj e' = proj e ∧
+             i_alloc (w_ipam (pstep w (PRestart ex_conf2)).1) !! x = Some e' ∧
+             i_alloc (w_ipam (pstep w (PIpam (OConfigure ex_conf2 false []))).1) !! x = Some e'.
+Proof. exact restart_keeps_exact_entry_refuted_l. Qed.
+Print Assumptions restart_keeps_exact_entry_refuted.
